@@ -140,7 +140,7 @@ impl Check for C02 {
 		}
 	}
 	fn rule(&self) -> String {
-		"all 9 forests of <= 3 sub-tracks x internal buffer {1,2,3,4} x {0,1,2} send tracks (routes from track 0, and from the last track for 2 sends) x every subset of {main, tracks} carrying a probe sound x one perturbation at a time (volume -6.0206 / -60 dB on each track, main, send, route; all -6 dB; 2-chunk volume tween down and (from -12 dB) up to exactly 0 dB; a route declared twice then closed; three order-sensitive effect chains on each track, main, send; the same with a -6 dB fader on that target; two sounds on one track) x 4 callback patterns from {1,3,4,7} frames; plus all histories to depth 3 (4 thorough) over 5 + 7 per track letters (add sound, drop handle, finish sound, pause, resume, tweened set_volume and faded resume per track; tweened set_send; send-track volume to -60 dB / back to 0 dB; drop send handle) on fully populated forests; plus E2: all interleavings (preemption bound 2 / 3) of game(add send track; add track routed to it; play) with audio(3 callbacks). Every callback is compared with the reference sum; states = distinct (adopted, marked, removed, pause state) vectors of the model; non-trivial = scenes with at least two contributing sounds and non-silent output".into()
+		"all 9 forests of <= 3 sub-tracks x internal buffer {1,2,3,4} x {0,1,2} send tracks (routes from track 0, and from the last track for 2 sends) x every subset of {main, tracks} carrying a probe sound x one perturbation at a time (volume -6.0206 / -60 dB on each track, main, send, route; all -6 dB; 2-chunk volume tween down and (from -12 dB) up to exactly 0 dB; a route declared twice then closed; three order-sensitive effect chains on each track, main, send; the same with a -6 dB fader on that target; two sounds on one track) x 4 callback patterns from {1,3,4,7} frames; plus all histories to depth 3 (4 thorough) over 5 + 8 per track letters (add sound, drop handle, finish sound, pause, resume, tweened set_volume, faded resume and a delayed resume_at per track; tweened set_send; send-track volume to -60 dB / back to 0 dB; drop send handle) on fully populated forests; plus E2: all interleavings (preemption bound 2 / 3) of game(add send track; add track routed to it; play) with audio(3 callbacks). Every callback is compared with the reference sum; states = distinct (adopted, marked, removed, pause state) vectors of the model; non-trivial = scenes with at least two contributing sounds and non-silent output".into()
 	}
 	fn assumptions(&self) -> Vec<String> {
 		vec![
@@ -326,6 +326,7 @@ fn letters(n: usize) -> Vec<String> {
 		v.push(format!("resume track {} (instant)", i));
 		v.push(format!("set_volume(track {}, -12 dB over 1 s = 8 frames)", i));
 		v.push(format!("resume track {} (fade-in over 1 s)", i));
+		v.push(format!("resume_at(track {}, Delayed 0.75 s = 6 frames, instant)", i));
 	}
 	v.push("set_volume(send 0, -60 dB, instant)".to_string());
 	v.push("set_volume(send 0, 0 dB, instant)".to_string());
@@ -381,8 +382,8 @@ fn histories(tier: Tier, shape: usize, ibs: usize, ctx: &mut Ctx) {
 					l if l == ls.len() - 2 => w.set_send_volume(0, 0.0, 0.0),
 					l if l == ls.len() - 3 => w.set_send_volume(0, -60.0, 0.0),
 					_ => {
-						let i = (l - 3) / 7;
-						match (l - 3) % 7 {
+						let i = (l - 3) / 8;
+						match (l - 3) % 8 {
 							0 => {
 								let (a, b) = sound_code(5 + extra % 3);
 								extra += 1;
@@ -397,7 +398,8 @@ fn histories(tier: Tier, shape: usize, ibs: usize, ctx: &mut Ctx) {
 							3 => w.pause_node(i, 0.0),
 							4 => w.resume_node(i, 0.0),
 							5 => w.set_node_volume(i, -12.0, 1.0),
-							_ => w.resume_node(i, 1.0),
+							6 => w.resume_node(i, 1.0),
+							_ => w.resume_node_at(i, kira::StartTime::Delayed(std::time::Duration::from_secs_f64(0.75)), crate::models::playback::StartM::Delayed(0.75), 0.0),
 						}
 					}
 				}
